@@ -1113,3 +1113,46 @@ def c08_8(ctx: Ctx) -> RuleResult:
         i.rule = "C08.8"
     r.rule, r.title, r.floor = "C08.8", "normalised constraint values and Jacobians are invalidated together (a Jacobian is never one kept from another point)", 2
     return r
+
+
+@rule(P)
+def c08_9(ctx: Ctx) -> RuleResult:
+    """Shared with C16.7: the options handed to SciPy are the configured ones."""
+    from .c16 import c16_7
+
+    r = c16_7(ctx)
+    for i in r.instances:
+        i.rule = "C08.9"
+    r.rule, r.title = "C08.9", "the options handed to SciPy are the configured options: no entry is dropped because of its value"
+    return r
+
+
+@rule(P)
+def c08_10(ctx: Ctx) -> RuleResult:
+    """The plug-in indexes with `x[mask]` / `~mask`, which selects and complements only for a boolean array: the
+    configuration's array converters must coerce the dtype on every path (sibling agreement of the _convert_* family:
+    None stays None, everything else goes through a dtype-coercing constructor)."""
+    from ..util import guard_leaves
+
+    res = RuleResult("C08.10", "COH", "array-valued configuration fields are coerced to their dtype on every path (a mask is boolean whatever was passed in)")
+    X = ctx.X
+    convs = [f for f in ctx.repo.funcs_in("ropt.config.utils") if f.name.startswith("_convert_") and "array" in f.name and f.cls is None]
+    if len(convs) < 4:
+        raise AnalysisError(f"only {len(convs)} _convert_*array* functions found in ropt.config.utils")
+    for f in convs:
+        leaves = list(guard_leaves(X.force_inline(X.guarded_return(f), f), strip_wrappers=False))
+        bad = []
+        for conds, leaf in leaves:
+            if leaf == ("const", None) or (leaf[0] == "param" and any(a == ("cmp", "is", leaf, ("const", None)) and p for a, p in conds)):
+                continue
+            coerces = any(s_[0] == "call" and any(k == "dtype" for k, _v in s_[3]) for s_ in subterms(leaf)) or \
+                any(s_[0] == "call" and s_[1][0] == "attr" and s_[1][2] == "astype" for s_ in subterms(leaf))
+            if not coerces:
+                bad.append(leaf)
+        ok = not bad
+        res.add(f, f.node, f"`{f.name}` returns None or a dtype-coerced array on every path", ok,
+                "" if ok else f"a path returns `{show(bad[0], 60)}` without dtype coercion: e.g. a 0/1 integer mask stays integer, and `x[mask]` / `~mask` in the optimizer plug-in become "
+                "fancy indexing / bitwise complement (wrong x0, bounds and constraint rows, no error)",
+                construct=f"{f.name}: dtype coercion")
+    res.floor = 4
+    return res
